@@ -105,8 +105,10 @@ func (e *varstoreEngine) Gen(seed uint64, tier string, run int) *Trace {
 		return false
 	}
 	// small value universe per run so that values repeat, grow and shrink
-	dbvals := []ValSpec{{Kind: "hashdb", N: 0}, {Kind: "hashdb", N: 1, Tag: 1 + r.Intn(3)}, {Kind: "hashdb", N: 2, Tag: 1 + r.Intn(3)},
-		{Kind: "hashdb", N: 3, Tag: 1 + r.Intn(3)}, {Kind: "hashdb", N: r.Range(4, 9), Tag: 9}, {Kind: "certdb", Tag: r.Intn(poolSize)},
+	// (the hash databases of a run mostly share their entries: shorter ones are prefixes of longer ones, so that values overlap)
+	ht := 1 + r.Intn(3)
+	dbvals := []ValSpec{{Kind: "hashdb", N: 0}, {Kind: "hashdb", N: 1, Tag: ht}, {Kind: "hashdb", N: 2, Tag: ht},
+		{Kind: "hashdb", N: 3, Tag: 1 + r.Intn(3)}, {Kind: "hashdb", N: r.Range(4, 9), Tag: ht}, {Kind: "certdb", Tag: r.Intn(poolSize)},
 		{Kind: "multidb", N: r.Range(2, 4), Tag: r.Intn(4)}, {Kind: "tailemptydb", N: r.Intn(3), Tag: r.Intn(4)},
 		{Kind: "randdb", Tag: r.Intn(1 << 24)}, {Kind: "randdb", Tag: r.Intn(1 << 24)}}
 	rawvals := []ValSpec{{Kind: "raw", N: 0}, {Kind: "raw", N: 1, Tag: 1}, {Kind: "raw", N: 4, Tag: 2}, {Kind: "raw", N: 7, Tag: 3},
@@ -401,7 +403,7 @@ func vsExec(c vsCfg, ops []vsOp, faults []Fault, x *X) (hist []porcupine.Operati
 						}
 						expect = m.Bytes()
 					}
-					werr = api.WriteSignedUpdate(v, rawVal(val), pk.Key, pk.Cert)
+					werr = api.WriteSignedUpdate(v, libVal(val, i%2 == 0), pk.Key, pk.Cert)
 				}
 			}()
 			x.Logf("op %d %s %s val=%s -> err=%v panic=%v", i, op.Op, vs.String(), shortHex(val), werr, pv)
